@@ -1199,14 +1199,16 @@ class QasmOutput:
         name, registers, arguments.
         """
 
-        if not q_controls:
+        # controls and targets may be lists, tuples or arrays of (numpy)
+        # integers; in a gate definition they are names of qubit arguments
+        if q_controls is None:
             q_controls = []
-        q_regs = q_controls + q_targets
+        q_regs = list(q_controls) + list(q_targets)
 
-        if isinstance(q_targets[0], int):
-            q_regs = ",".join(["q[{}]".format(reg) for reg in q_regs])
-        else:
+        if isinstance(q_targets[0], str):
             q_regs = ",".join(q_regs)
+        else:
+            q_regs = ",".join(["q[{:d}]".format(reg) for reg in q_regs])
 
         if q_args is not None:
             if isinstance(q_args, (list, tuple, np.ndarray)):
